@@ -21,6 +21,7 @@ fieldsDec_arrN fieldsDec_arrI fieldsDec_mapN fieldsDec_mapI arrLoopN_X arrLoopI_
 startNB_encW startOk_encW skip_emptyW readerVals_self
 body_pref rfVars_pref snd_body snd_vars spec_valid""".split()]
 PACKAGES = ["dgen"]
+on_build_failure = base.on_build_failure
 def prepare(seed, tier):
     base.prepare(seed, tier)
 
@@ -135,7 +136,7 @@ def streams(rng, tier):
         return "ok" if impl == model else "corr"
 
     def mk(name, rows, rule):
-        st = Stream(name, "dgen", [r[0] for r in rows], model_ops=[r[1] for r in rows], judge=judge, rule=rule)
+        st = Stream(name, "dgen", [r[0] for r in rows], model_ops=[r[1] for r in rows], judge=base.guard_pruned(judge, tier), rule=rule)
         st.shrinkable = False
         return st
 
@@ -144,7 +145,7 @@ def streams(rng, tier):
 
     def enc_judge(op, impl, model, spec):
         return "ok" if impl.split(" ")[0] == model.split(" ")[0] else "corr"      # the bytes themselves are C08's business
-    own_enc = Stream("derive-own-encoding", "dgen", [r[0] for r in own_rows], model_ops=[r[1] for r in own_rows], judge=enc_judge,
+    own_enc = Stream("derive-own-encoding", "dgen", [r[0] for r in own_rows], model_ops=[r[1] for r in own_rows], judge=base.guard_pruned(enc_judge, tier),
                      rule="denc <type> <value> on the implementation: produces the bytes the next stream decodes")
     own_enc.shrinkable = False
     yield own_enc
